@@ -513,6 +513,22 @@ class invariant:  # pylint: disable=invalid-name
                 "but got: {}".format(cls, type(invariants_on_setattr))
             )
 
+        if (
+            isinstance(cls, icontract._metaclass.DBCMeta)
+            and "__invariants__" not in cls.__dict__
+        ):
+            # The lists have been found on a base class which was given its invariants only after this class had been
+            # created. The class needs lists of its own, otherwise its invariant would be added to the base class
+            # (and to all the other sub-classes of the base class).
+            invariants = list(invariants)
+            setattr(cls, "__invariants__", invariants)
+
+            invariants_on_call = list(invariants_on_call)
+            setattr(cls, "__invariants_on_call__", invariants_on_call)
+
+            invariants_on_setattr = list(invariants_on_setattr)
+            setattr(cls, "__invariants_on_setattr__", invariants_on_setattr)
+
         invariants.append(self._invariant)
 
         if InvariantCheckEvent.CALL in self._invariant.check_on:
